@@ -117,6 +117,16 @@ CHECKS = {
         "Tandem clause judged only for non-competing rules; display_format names are not parsed.",
         "DESIGN.md 5/C11",
     ),
+    "C15": (
+        "metamorphic testing on Hypothesis-generated evidence tables: inject / remove sub-threshold observations; independent support predicate",
+        "For a planted noisy table of qualifying observations (half of them exactly on the thresholds) two different sets of observations "
+        "failing min_quality or min_mapq (incl. threshold-1) are added at catalogue sites, as new variant keys and as reference reads; "
+        "estimate_major and estimate_minor must return identical solutions and scores on all three tables, and every core variant of a called "
+        "major, every novel variant and every carried variant of a refined allele must satisfy both count thresholds computed from qualifying "
+        "observations only. Thresholds drawn over the documented ranges; toy, generated and small shipped genes.",
+        "Table-level calls with a caller-supplied structure; no phasing input.",
+        "DESIGN.md 5/C15",
+    ),
     "C16": (
         "Hypothesis-generated VCF files planting catalogued alleles as standard left-anchored records; expected-evidence oracle + end-to-end call",
         "One or two catalogued alleles of a generated database are written as VCF records (SNP, deletion, insertion, MNP as one record or as "
